@@ -1,6 +1,6 @@
 """Per-property decision procedures (DESIGN.md section 7)."""
 import itertools, json, re
-from . import core, run, streams
+from . import core, run, streams, gotypes
 from .core import log
 
 OPTS0 = dict(html=False, radix=False, ignf=False)
@@ -661,7 +661,71 @@ def c09(ctx):
 
 GOTYPE_C09 = None
 
+
+# ---------------------------------------------------------------- gotype: C12 / C11
+
+def gen_gotypes(ctx, quick=None):
+    q = ctx.quick if quick is None else quick
+    return core.tlc_generate(ctx, "GenGoType", dict(MaxFields=2 if q else 3, MaxRich=1, WithTop=True), [], name="GenGoType", workers=4)
+
+
+def fold_cases(ctx, prop, rows=None):
+    rnd = ctx.rng
+    rows = rows if rows is not None else gen_gotypes(ctx)
+    cases = []
+    for n, r in enumerate(rows):
+        for top in (("val", "ptr") if n % 4 == 0 else ("val",)):
+            cases.append(case(prop, "fold", "go", sub=dict(T=r["T"], V=gotypes.fill(r["V"], rnd, n), top=top), origin="GenGoType"))
+    return cases
+
+
+def c12(ctx):
+    cases = number(fold_cases(ctx, "C12"))
+    tf, st = core.run_harness(ctx, cases)
+    failed, nv = core.tlc_validate(ctx, "TraceCodec", tf)
+    return run.decide(
+        ctx, "TraceCodec", cases, tf, failed, nv, level_note="",
+        rule="TLC enumerates Go PROGRAMS (GenGoType): struct types with up to MaxFields fields where one field ranges over the whole "
+             "catalogue field type x tag options (name, -, omit, omitempty, inline, squash, combinations) x value class (zero, empty, "
+             "non-empty, nil/non-nil pointer chains to depth 3, interfaces holding every dynamic kind, named types with IsZero/Fold "
+             "methods) at every position next to plain fields, plus every catalogue entry as a top-level value; the harness realises "
+             "the types with reflect.StructOf, folds the value into a recording Visitor, and TraceCodec!FoldVerdict compares the events' "
+             "value with SFGoType!FoldSem (the documented tag rules). Distinct = distinct (type, value, top); non-trivial = struct types.",
+        nontrivial=lambda c: c["sub"]["T"]["k"] == "struct",
+        assumptions=TCB + ["the value descriptor is the projection of the actual Go value by reflection (harness describe())",
+                           "grey zone admitted both ways: omitempty on a non-nil pointer/interface whose target is empty"])
+
+
+def c11(ctx):
+    rnd = ctx.rng
+    rows = gen_gotypes(ctx)
+    cases = []
+    for n, r in enumerate(rows):
+        vias = ["direct", ("json", "ubjson", "cborl")[n % 3]] if ctx.quick else ["direct", "json", "ubjson", "cborl"]
+        v = gotypes.fill(r["V"], rnd, n)
+        for via in vias:
+            cases.append(case("C11", "gort", "go", sub=dict(T=r["T"], V=v, via=via), origin="GenGoType"))
+    # self-referential types (hand-written registry)
+    for tid, val in (("RecNode", dict(k="struct", f=[dict(k="int", ty="int", v=streams.canon(1)), dict(k="ptr", nil=True)])),
+                     ("RecTree", dict(k="struct", f=[dict(k="str", ty="string", v=list(b"r")), dict(k="slice", nil=True), dict(k="map", nil=True)]))):
+        for via in ("direct", "json"):
+            cases.append(case("C11", "gort", "go", sub=dict(T=dict(k="named", id=tid), V=val, via=via), origin="recursive type"))
+    number(cases)
+    tf, st = core.run_harness(ctx, cases)
+    failed, nv = core.tlc_validate(ctx, "TraceCodec", tf)
+    return run.decide(
+        ctx, "TraceCodec", cases, tf, failed, nv, level_note="",
+        rule="the TLC-enumerated (type, value) programs of GenGoType (see C12) plus self-referential named types, each folded and "
+             "unfolded into a fresh variable of the same type directly and through the JSON, UBJSON and CBOR encoder+parser; "
+             "TraceCodec!GoRtVerdict compares the reflection-projected result with the original through SFGoType!RoundTripOK (value "
+             "equality with nil/empty identified, never-reported fields zero) and requires refusal-by-error for unsupported kinds. "
+             "Distinct = distinct (type, value, transport); non-trivial = struct types.",
+        nontrivial=lambda c: c["sub"]["T"]["k"] in ("struct", "named"),
+        assumptions=TCB + ["documented transport limits are not judged: non-finite floats via JSON, integers above MaxInt64 via UBJSON"])
+
 PROPS = {
+    "C12": c12,
+    "C11": c11,
     "C09": c09,
     "C17": c17,
     "C18": c18,
